@@ -1,5 +1,5 @@
 (* C10: CRC framing appends the right checksum and never accepts a wrong one. *)
-From PV Require Import Base MachineInt DataModel Ser De Crc SerFlavors DeFlavors CrcFacts CrcBurst Cobs Crc SerFlavors ModDecl GenModifiers ModInterp ModFacts.
+From PV Require Import Base MachineInt DataModel Ser De Crc SerFlavors DeFlavors CrcFacts CrcBurst Cobs Crc SerFlavors ModDecl GenModifiers ModInterp ModFacts SchemaDecl SerEntryDecl GenSerEntry StorageInterp SerEntryInterp SerEntryFacts.
 Open Scope N_scope.
 
 (* CRC-framed output = plain encoding ++ little-endian checksum of exactly those bytes *)
@@ -111,6 +111,19 @@ Theorem C10_modifiers_define_exactly :
   crc_de_entry_points_finalize_through_the_modifier = true.
 Proof. exact modifiers_define_exactly. Qed.
 
+(* the serialising entry points are the code of ser/mod.rs (and of the crc module of
+   ser/flavors.rs) as read on this run (GenSerEntry.v): the flavour stack each one builds from its
+   own arguments (Slice::new(buf), HVec::default(), AllocVec::new(), Cobs::try_new(..)?,
+   CrcModifier::new(.., digest), the aliases to_stdvec* and to_*_crc32 resolved through the macro
+   instances), handed to serialize_with_flavor as matched against its template (serialize, then
+   finalize with the error kind read from the source) *)
+Theorem C10_crc32_entry_points_are_the_source : forall a v, ea_nb a = 4%nat ->
+  omap EOSlice (to_slice_crc (ea_alg a) 4 v (ea_buf a)) = run_entry a v e_to_slice_crc32 /\
+  omap EOVec (to_vec_crc (ea_alg a) 4 (ea_cap a) v) = run_entry a v e_to_vec_crc32 /\
+  omap EOVec (to_allocvec_crc (ea_alg a) 4 v) = run_entry a v e_to_allocvec_crc32 /\
+  omap EOVec (to_allocvec_crc (ea_alg a) 4 v) = run_entry a v e_to_stdvec_crc32.
+Proof. exact crc32_entries_are_source. Qed.
+
 Print Assumptions C10_output.
 Print Assumptions C10_roundtrip.
 Print Assumptions C10_accept_sound.
@@ -125,3 +138,4 @@ Print Assumptions C10_crc_try_push_is_the_source.
 Print Assumptions C10_crc_finalize_is_the_source.
 Print Assumptions C10_crc_de_is_the_source.
 Print Assumptions C10_modifiers_define_exactly.
+Print Assumptions C10_crc32_entry_points_are_the_source.
